@@ -347,10 +347,16 @@ class Documentable:
             elif i != 0 and isinstance(obj, Class):
                 # An attribute of a class is looked up in the class and in the classes it inherits from,
                 # not in the scopes that enclose the class statement.
-                if p in obj.contents:
-                    full_name = obj.contents[p].fullName()
-                else:
-                    full_name = obj._localNameToFullName_map.get(p, p)
+                full_name = p
+                for klass in obj.mro():
+                    # What a class binds itself - with a definition, an import 
+                    # or an alias - comes before what the next class in line binds.
+                    if p in klass.contents:
+                        full_name = klass.contents[p].fullName()
+                        break
+                    elif p in klass._localNameToFullName_map:
+                        full_name = klass._localNameToFullName_map[p]
+                        break
             else:
                 full_name = obj._localNameToFullName(p)
             if full_name == p and i != 0:
